@@ -134,6 +134,8 @@ Definition raw_numeric (e : numeric_enc) (c : cursor) : res (num * cursor) :=
   | KInt signed =>
       '(v, c') <- read_as_int c (ne_size e) ;;
       let v := match ne_order e with LSB => reverse_bytes v (Z.to_nat ((ne_size e + 7) / 8)) | MSB => v end in
+      (* a signed field of width 0: _twos_complement shifts by -1 (ValueError) *)
+      if signed && (ne_size e <? 1) then Err EValue else
       Ok (NInt (if signed then twos_complement v (ne_size e) else v), c')
   | KFloat fmt =>
       '(bs, c') <- read_as_bytes c (ne_size e) ;;
